@@ -73,9 +73,11 @@ pub fn worker_main(prop: &dyn Prop, tier: Tier, base_seed: u64) -> i32 {
     // a runaway execution (e.g. a cycle limit that is not enforced) must not take the machine down:
     // cap the address space of a worker; an allocation failure aborts the worker, which the
     // supervisor reports for the run in progress
-    unsafe {
-        let lim = libc::rlimit { rlim_cur: 12 << 30, rlim_max: 12 << 30 };
-        libc::setrlimit(libc::RLIMIT_AS, &lim);
+    if let Some(gb) = prop.worker_mem_limit_gb() {
+        unsafe {
+            let lim = libc::rlimit { rlim_cur: gb << 30, rlim_max: gb << 30 };
+            libc::setrlimit(libc::RLIMIT_AS, &lim);
+        }
     }
     let stdin = std::io::stdin();
     let stdout = std::io::stdout();
@@ -343,8 +345,12 @@ fn run_pool(prop: &dyn Prop, tier: Tier, seed: u64, indices: Arc<Vec<u64>>, nwor
                 // stop early once many different violation classes are on the table
                 {
                     let a = agg.lock().unwrap();
+                    // (known findings repeat in many runs: count classes, not occurrences)
                     if a.violations.len() > 2000 {
-                        stop.store(true, Ordering::Relaxed);
+                        let classes: HashSet<&str> = a.violations.iter().map(|(_, v)| v.class.as_str()).collect();
+                        if classes.len() > 60 {
+                            stop.store(true, Ordering::Relaxed);
+                        }
                     }
                 }
             }
